@@ -33,6 +33,10 @@ CHECKS["C18"] = ("E1-enum", "exploration",
   "Bounded-exhaustive cross-decoder check: every exec-out map of <=3 items over boundary field values and every store content of <=3 entries over boundary lengths, encoded by the hand-written encoders and decoded by google.golang.org/protobuf (and vice versa), plus self round-trips of all four store marshallers and the size reported on load.",
   "Trusts google.golang.org/protobuf as the wire-format reference.",
   "bounded exhaustive enumeration, differential between hand-written and generated/standard codecs", "3/C18")
+CHECKS["C12"] = ("E1-enum", "exploration",
+  "Bounded-exhaustive over (mode, segment size, ordered store initial blocks, output initial block, start, stop, final block) on boundary sets, ~8.6M tuples (thorough ~10^8), through the real BuildRequestDetails -> tier1 glue -> BuildTier1RequestPlan -> segmenters, against the covering conditions stated by the property; plus every cursor shape x resolver answer.",
+  "The five lines of glue of Tier1Service.blocks are replicated in the harness (cross-checked against SessionInit of whole-system runs); graphs are k stores + one map.",
+  "bounded exhaustive enumeration of request configurations on the real resolution and planning functions", "3/C12")
 PENDING = {}
 def main():
     checks = []
